@@ -820,6 +820,15 @@ func (fc *FnCtx) checkInvariants(fr *Frame, h *ssa.BasicBlock, li int, st *State
 			fc.oblige(fr, "invariant-"+where, fmt.Sprintf("loop %d: %s", li, clauseName(cl)), reach, t, env.quant, nil)
 		}
 	}
+	// entry clauses: facts about the state in which the loop is entered (never assumed)
+	if where == "entry" && fr.parent == nil && fc.con != nil {
+		for _, cl := range fc.con.LoopEntry[li] {
+			for _, part := range splitConj(cl.Expr) {
+				env := fc.invEnv(fr, st, phiVals, phis, cl.Text)
+				fc.oblige(fr, "loop-entry", fmt.Sprintf("loop %d: %s", li, clauseName(cl)), reach, env.evalBool(part), env.quant, nil)
+			}
+		}
+	}
 	// step clauses: facts about one iteration, checked at the back edge with the
 	// iteration's locals in scope (never assumed)
 	if where == "back" {
